@@ -234,6 +234,14 @@ theorem norm_run (F : FloatOps) (H : Host) (bc : BC) (i : Inputs) : run F H (nor
 /-- `load` is the plain construction of the denoted Go objects on well-formed bytecode -/
 theorem load_is_plain (H : Host) (bc : BC) (h : WFBC bc) : load H bc = loadRaw H bc := load_of_WF H bc h
 
+/-- more than that: `load = loadRaw` as soon as the maps among the constants are Go maps (unique
+    keys) — compiled functions may have negative counts, a non-empty `Free`, repeated source-map
+    keys: none of that is part of the VM state, so `norm_run` is not an artefact of loading through
+    the normal form -/
+theorem load_is_plain_keys (H : Host) (hH : HostNorm H) (bc : BC)
+    (h : ∀ cs, bc.constants = some cs → KeysOKL cs) : load H bc = loadRaw H bc :=
+  loadRaw_norm H hH bc h
+
 /-- … and on compiler output it is `NewVM(bc)` of the Eval model -/
 theorem load_compiled (H : Host) (fs : Option FileSet) (cbc : Compile.Bytecode) (hs : SmallCounts cbc) :
     load H (toEnc fs cbc) = Eval.setBytecode (newState #[] #[] #[] 0 0) cbc.main 0 cbc.constants #[] :=
